@@ -95,6 +95,29 @@ ASSUME = [
     "signed overflow does not occur in the translated kernels (checked by UBSan in the harness)",
 ]
 
+def abstract_tie(ctx, ops, impl):
+    """tie of the ABSTRACT float32 models of Props/C07Float (Lemmas/C07Float: mulF, invF) to the real code: instantiated with
+    the genuine IEEE rounding FloatSpec.binary32 and evaluated by the Lean kernel, they must return what channel_multiply /
+    channel_invert returned, on a seeded sample of the float ops of this run (both observations of each op)"""
+    r, claims = ctx.rng, []
+    cand = [(o, obs) for o, obs in zip(ops, impl) if o.split()[0] in ("mulf", "invf")]
+    for _ in range(min(len(cand), 400 if ctx.thorough() else 120)):
+        o, obs = cand[r.below(len(cand))]
+        w = o.split()
+        try: v = [int(x) for x in obs.split()]
+        except ValueError: continue
+        if len(v) != 2: continue
+        if w[0] == "mulf":
+            a, b = vlib.f32_to_rat(int(w[1])), vlib.f32_to_rat(int(w[2]))
+            claims.append(("mulF FloatSpec.binary32 %s %s" % (a, b), vlib.f32_to_rat(v[0]), o))
+            claims.append(("mulF FloatSpec.binary32 %s %s" % (b, a), vlib.f32_to_rat(v[1]), o + " (swapped)"))
+        else:
+            x = vlib.f32_to_rat(int(w[1]))
+            claims.append(("invF FloatSpec.binary32 %s" % x, vlib.f32_to_rat(v[0]), o))
+            claims.append(("invF FloatSpec.binary32 (invF FloatSpec.binary32 %s)" % x, vlib.f32_to_rat(v[1]), o + " (twice)"))
+    claims = list({c[0]: c for c in claims}.values())
+    vlib.kernel_tie(ctx, "C07Float", ["GilVerif.Props.C07Float"], ["GilVerif", "GilVerif.Lemmas.C07Float"], "ℚ", claims)
+
 def run(ctx, ops=None):
     vlib.regen(ctx, C07_syms.NAMESPACE, C07_syms.SYMS)
     obligations, discharged = vlib.standard_proof_steps(ctx, extra_props=["GilVerif.Props.C07Float"])
@@ -112,6 +135,7 @@ def run(ctx, ops=None):
                 a, b = r.split("first=")[1].split(",")
                 extra.append("mulrc %s %s %s 1 1" % (o.split()[1], a, b)); extra.append("mulrc %s %s %s 1 1" % (o.split()[1], b, a))
         if extra: vlib.correspond(ctx, binary, "drv_C07", extra, label="sweep-witness")
+        if discharged == obligations: abstract_tie(ctx, ops, impl)
         distinct = len({o for o in ops if nontrivial(o)})
         pairs = sum(int(o.split()[4]) for o in ops if o.startswith("mulrc")) + 2**32 * len([o for o in ops if o.startswith("mulall")]) + sum(int(o.split()[3]) for o in ops if o.startswith("inv "))
         ctx.cov["values_judged"] = pairs
@@ -122,7 +146,7 @@ def run(ctx, ops=None):
              "stratified rows for wider channels, all x for invert on <=16-bit channels, boundary+random float32 bit patterns; "
              "non-trivial = row whose fixed operand is neither min nor max (distinct op lines counted)",
         samples=samples, distinct_nontrivial=distinct, assumptions=ASSUME, trusted_base=vlib.TRUSTED_BASE,
-        extra={"values_judged": ctx.cov.get("values_judged", 0), "exhaustive_domains": ["u8 x u8", "i8 x i8", "packed1..8 pairs", "invert on all <=16-bit channels"]},
+        extra={"values_judged": ctx.cov.get("values_judged", 0), "kernel_tie": ctx.cov.get("kernel_tie"), "exhaustive_domains": ["u8 x u8", "i8 x i8", "packed1..8 pairs", "invert on all <=16-bit channels"]},
         exhaustive=False)
 
 def replay(ctx, path):
